@@ -241,6 +241,14 @@ def _build():
 
 
 FINDINGS = _build() + [
+    dict(id="C14-live-function-untyped-parameter-typ-none", property="C14",
+         pattern=dict(check="wellformed", parser="function_live", source="live", clause="typ_not_str", entry="param", has_default=False),
+         what="[R-typ-none] the same through the inspect path: function.parse of a live function returns 'typ': None for a parameter that is neither annotated nor given a default",
+         site="cdd/function/parse.py:function (FunctionType branch) / cdd/shared/parse/utils/parser_utils.py:_inspect", example="def f(a, b, c): ... imported from a module, cdd.function.parse.function(f)"),
+    dict(id="C14-live-function-undocumented-varargs-dropped", property="C14",
+         pattern=dict(check="wellformed", parser="function_live", source="live", clause="signature_param_count", documented=False, param_kind={"in": ["vararg", "kwarg"]}, times=0),
+         what="[R-undocumented-varargs-dropped] the same through the inspect path: *args / **kwargs of a live function's signature are missing from the result unless documented",
+         site="cdd/shared/parse/utils/parser_utils.py:_inspect", example="def f(a, b, c, *args, **kwargs): ... imported from a module, cdd.function.parse.function(f)"),
     dict(id="C14-json-schema-unknown-keywords-copied-into-entry", property="C14",
          pattern=dict(check="wellformed", parser="json_schema", clause="entry_keys", entry="param", source="handwritten",
                       key={"in": ["enum", "format", "items", "maxLength", "minimum", "examples", "title"]}),
@@ -254,4 +262,7 @@ FINDINGS = _build() + [
          site="cdd/json_schema/utils/parse_utils.py:json_schema_property_to_param (`if _param.get('pattern')`)",
          example="{'properties': {'alpha': {'type': 'string', 'pattern': ''}}} -> params['alpha'] == {'typ': 'str', 'pattern': ''}"),
 ]
-FIXED = []
+FIXED = [
+    "fixed: property=C14 520cde0 live function/class (inspect path): a builtin annotation came back as the type \"<class 'int'>\" (not an expression), 'str' as 'r'",
+    "fixed: property=C14 4aca4fd live class without a docstring: the result had no 'doc' key (and no 'returns')",
+]
